@@ -65,7 +65,9 @@ func init() {
 			cfg.Logging.RequestID.Enabled, cfg.Logging.Trace.Enabled = c.ReqOn, c.TraceOn
 			reqH, traceH := "X-Request-ID", "X-Trace-ID"
 			if c.Custom {
-				reqH, traceH = "X-Corr-Id", "Traceparent-X"
+				// configured spellings that are not in canonical MIME form as well (header names are case-insensitive)
+				names := [][2]string{{"X-Corr-Id", "Traceparent-X"}, {"x-correlation-id", "X-B3-TraceID"}, {"X-Correlation-ID", "x-trace"}}[c.Idx%3]
+				reqH, traceH = names[0], names[1]
 				cfg.Logging.RequestID.Header, cfg.Logging.Trace.Header = " "+reqH+" ", traceH
 			}
 			cfg.RateLimit = config.RateLimitConfig{Enabled: true, MaxTokens: 40, RefillRate: 3600}
